@@ -35,6 +35,14 @@ out_idx = T.uf("out_idx", [R], I)
 in_idx = T.uf("in_idx", [R], I)
 node_of_origin = T.uf("node_of_origin", [R], R)
 node_of_dest = T.uf("node_of_dest", [R], R)
+n_elements = T.uf("n_elements", [], I)
+element_at = T.uf("element_at", [I], R)
+n_origins = T.uf("n_origins", [], I)
+origin_at = T.uf("origin_at", [I], R)
+n_dests = T.uf("n_dests", [], I)
+dest_at = T.uf("dest_at", [I], R)
+n_links = T.uf("n_links", [], I)
+link_at = T.uf("link_at", [I], R)
 link_in_net = T.uf("link_in_net", [R], B)
 origin_in_net = T.uf("origin_in_net", [R], B)
 dest_in_net = T.uf("dest_in_net", [R], B)
@@ -426,7 +434,58 @@ class GhostNet:
         return SSeq(n_out(n), elem, f"out_links({n!r})")
 
     # attribute protocol --------------------------------------------------------------
+    # enumerations (C04: links in edge order, then origins, then destinations) -----------------
+    def links_seq(self):
+        def elem(j):
+            l = link_at(j)
+            cur().axiom(T.implies(T.and_(T.le(0, j), T.lt(j, n_links())), link_in_net(l)))
+            self.link_facts(l)
+            return (self.heap.ref(up(l), ("Node",)), self.heap.ref(down(l), ("Node",)), self.heap.ref(l, LINK_CLASSES))
+
+        cur().axiom(T.le(0, n_links()))
+        return SSeq(n_links(), elem, "links")
+
+    def origins_seq(self):
+        def elem(j):
+            o = origin_at(j)
+            cur().axiom(T.implies(T.and_(T.le(0, j), T.lt(j, n_origins())), origin_in_net(o)))
+            self.origin_facts(o)
+            return self.heap.ref(o, ORIGIN_CLASSES)
+
+        cur().axiom(T.le(0, n_origins()))
+        return SSeq(n_origins(), elem, "origins")
+
+    def dests_seq(self):
+        def elem(j):
+            d = dest_at(j)
+            cur().axiom(T.implies(T.and_(T.le(0, j), T.lt(j, n_dests())), dest_in_net(d)))
+            self.dest_facts(d)
+            return self.heap.ref(d, DEST_CLASSES)
+
+        cur().axiom(T.le(0, n_dests()))
+        return SSeq(n_dests(), elem, "destinations")
+
+    def elements_seq(self):
+        """chain(links, origins, destinations) as one sequence"""
+        nl, no, nd = n_links(), n_origins(), n_dests()
+        for x in (nl, no, nd):
+            cur().axiom(T.le(0, x))
+        total = T.add(T.add(nl, no), nd)
+
+        def elem(j):
+            c = cur()
+            e = element_at(j)
+            inr = T.and_(T.le(0, j), T.lt(j, total))
+            c.axiom(T.implies(T.and_(inr, T.lt(j, nl)), T.and_(T.eq(e, link_at(j)), link_in_net(e), isa(e, LINK_CLASSES))))
+            c.axiom(T.implies(T.and_(inr, T.le(nl, j), T.lt(j, T.add(nl, no))), T.and_(T.eq(e, origin_at(T.sub(j, nl))), origin_in_net(e), isa(e, ORIGIN_CLASSES))))
+            c.axiom(T.implies(T.and_(inr, T.le(T.add(nl, no), j)), T.and_(T.eq(e, dest_at(T.sub(T.sub(j, nl), no))), dest_in_net(e), isa(e, DEST_CLASSES))))
+            return self.heap.ref(e, LINK_CLASSES + ORIGIN_CLASSES + DEST_CLASSES)
+
+        return SSeq(total, elem, "elements")
+
     def pyvc_getattr(self, interp, name):
+        if name == "elements":
+            return self.elements_seq()
         if name in ("in_links", "out_links", "links"):
             return _LinkView(self, "in" if name == "in_links" else "out")
         if name in ("origins_by_node", "destinations_by_node", "origins", "destinations", "nodes_by_link"):
@@ -460,7 +519,11 @@ class _LinkView:
         return self.net.in_links_seq(n) if self.kind == "in" else self.net.out_links_seq(n)
 
     def pyvc_iter(self, interp):
-        raise Unsupported("iteration over all links of a ghost network")
+        from pyvc.interp import _SymbolicIterationNeeded
+
+        if self.kind != "out":
+            raise Unsupported("iteration over the in-link view")
+        raise _SymbolicIterationNeeded(self.net.links_seq())
 
 
 class _Lookup:
@@ -478,6 +541,15 @@ class _Lookup:
 
             return Builtin(f"{self.which}.get", get)
         raise Unsupported(f"{self.which}.{name} is not part of the ghost view")
+
+    def pyvc_iter(self, interp):
+        from pyvc.interp import _SymbolicIterationNeeded
+
+        if self.which == "origins":
+            raise _SymbolicIterationNeeded(self.net.origins_seq())
+        if self.which == "destinations":
+            raise _SymbolicIterationNeeded(self.net.dests_seq())
+        raise Unsupported(f"iteration over {self.which}")
 
     def pyvc_contains(self, interp, key):
         t = _as_ref(key, self.which)
